@@ -317,3 +317,126 @@ def rotations_from_left(model, rep, scope, rule='operator-side', min_instances=1
     if [(s_, t_) for _, s_, t_ in coordkind.rotation_sides(probe, ty)] != [('right', False)]:
         raise AnalysisError('coordkind self-check failed on the synthetic right-hand rotation')
     return n
+
+
+# ---------------------------------------------------------------- discipline of caches and remembered values
+def _scope_methods(model, ci, roots):
+    """methods of ``ci`` reachable from ``roots`` through self.m() calls (None: every method)."""
+    if roots is None:
+        return None
+    from ..engines import parity
+    out = set()
+    for r in roots:
+        if r.endswith('*'):
+            for m in ci.methods:
+                if m.startswith(r[:-1]):
+                    out |= parity.ctor_path(model, ci, m)
+        else:
+            if model.find_method(ci, r)[1] is None:
+                raise AnalysisError('anchor vanished: %s.%s' % (ci.name, r))
+            out |= parity.ctor_path(model, ci, r)
+    return out
+
+
+def cache_discipline(model, rep, classes, exempt=None, skip_guard_rule=False):
+    """For every class in ``classes`` (list of (module, class)): (a) early-return guards compare every parameter the skipped
+    body reads; (b) every lazily filled container attribute (a cache: looked up and stored in the same method) is keyed on
+    everything its values depend on, its entries are never edited in place and never handed to the caller; (c) a method that
+    keeps an attribute from an earlier call under a test relating its arguments to stored state recomputes it whenever an
+    argument the value depends on changes.  Today's tree has caches only in VacancyMediated.Lij; the rules are there to
+    judge any cache / shortcut a change introduces, by the same standard.  ``exempt``: {(class, method, parameter): reason}."""
+    from ..engines import cache, memo
+    exempt = exempt or {}
+    rep.rule('memo-key-complete', 'an early-return guard compares every parameter the skipped body reads')
+    rep.rule('cache-key-complete', 'a cached value is stored under a key that depends on every parameter the value depends on')
+    rep.rule('cache-entry-not-mutated', 'no in-place write reaches an entry of a cache')
+    rep.rule('cache-entry-not-returned', 'nothing returned to the caller shares storage with an entry of a cache')
+    rep.rule('state-reuse-keyed', 'an attribute kept from an earlier call is recomputed whenever an argument it depends on changes')
+    ok_self, got = cache.selfcheck()
+    if not ok_self:
+        raise AnalysisError('cache engine self-check failed: %s' % got)
+    nmeth = 0
+    for entry in classes:
+        mname, cname = entry[0], entry[1]
+        mod = model.mod(mname)
+        ci = model.cls(mname, cname)
+        only = _scope_methods(model, ci, entry[2] if len(entry) > 2 else None)
+        for meth, fn in ci.methods.items():
+            if ci.kind(meth) != 'instance' or not fn.args.args or (only is not None and meth not in only):
+                continue
+            nmeth += 1
+            q = '%s.%s' % (cname, meth)
+            guards = memo.find_guards(fn)
+            if not skip_guard_rule:
+                for g in guards:
+                    used = memo.params_read_after(fn, g)
+                    for p, node in sorted(used.items()):
+                        if p in g.compared_params:
+                            continue
+                        if (cname, meth, p) in exempt:
+                            rep.note('%s: parameter %s exempt from the memo key: %s' % (q, p, exempt[(cname, meth, p)]))
+                            continue
+                        rep.ob('memo-key-complete', mod, g.node, '%s: guard `%s` ignores parameter %s' % (q, unparse(g.node.test)[:80], p), False,
+                               'the skipped body depends on %s but the guard returns early whatever its value: a call that differs only '
+                               'in %s gets the previous result/state' % (p, p), engine='memo', qual=q)
+            # conditional reuse under a test that relates an argument to stored state
+            s = fn.args.args[0].arg
+            for r in memo.state_reuse(fn, [g.node for g in guards]):
+                rel = [t for t in r.guards if memo._relates_input_to_state(t, s)]
+                if not rel:
+                    continue
+                miss = sorted(r.value_deps - r.guard_deps)
+                if miss and not all((cname, meth, p) in exempt for p in miss):
+                    rep.ob('state-reuse-keyed', mod, r.node, '%s keeps self.%s from an earlier call (%s)' % (q, r.attr, r.how), False,
+                           'the stored value depends on %s, but the tests that decide whether it is recomputed (%s) do not'
+                           % (', '.join(miss), '; '.join(unparse(g)[:60] for g in r.guards)), engine='memo', qual=q)
+        for cm in cache.find_cache_methods(ci):
+            if only is not None and cm.name not in only:
+                continue
+            q = '%s.%s' % (cname, cm.name)
+            for f in cache.check_method(model, cm):
+                rep.ob(f.rule, mod, f.node, f.text, f.ok, f.msg, engine='cache', qual=q)
+    rep.count('methods examined for caches / shortcuts', nmeth)
+    rep.ob('memo-key-complete', None, None, 'cache discipline evaluated on %d method(s) of %s' % (nmeth, ', '.join(e[1] for e in classes)),
+           True, nontrivial=False, engine='cache')
+    return nmeth
+
+
+# classes whose methods implement each property: any cache / early-return shortcut added to them is judged by cache_discipline
+CACHE_SCOPE = {
+    'C01': [('OnsagerCalc', 'VacancyMediated'), ('crystalStars', 'VectorStarSet')],
+    'C02': [('OnsagerCalc', 'Interstitial')],
+    'C04': [('OnsagerCalc', 'Interstitial'), ('OnsagerCalc', 'VacancyMediated')],
+    'C06': [('OnsagerCalc', 'VacancyMediated')],
+    'C10': [('GFcalc', 'GFCrystalcalc')],
+    'C11': [('OnsagerCalc', 'Interstitial')],
+    'C14': [('OnsagerCalc', 'VacancyMediated'), ('GFcalc', 'GFCrystalcalc'), ('crystalStars', 'VectorStarSet'),
+            ('crystalStars', 'StarSet'),
+            # what the calculator and its Green function ask of the crystal
+            ('crystal', 'Crystal', ['fullkptmesh', 'reducekptmesh', 'jumpnetwork', 'jumpnetwork2lattice', 'sitelist', 'FullVectorBasis',
+                                    'VectorBasis', 'SymmTensorBasis', 'g_pos', 'g_direc', 'g_tensor', 'pos2cart', 'cart2pos'])],
+    'C15': [('OnsagerCalc', 'VacancyMediated'), ('OnsagerCalc', 'Interstitial')],
+    'C16': [('PowerExpansion', 'Taylor3D'), ('PowerExpansion', 'Taylor2D')],
+    'C17': [('PowerExpansion', 'Taylor3D'), ('PowerExpansion', 'Taylor2D')],
+    'C18': [('crystal', 'Crystal', ['__init__', 'gengroup', 'genpoint', 'genWyckoffsets', 'center', 'calcmetric', 'genBZG']),
+            ('crystal', 'GroupOp')],
+    'C21': [('crystal', 'Crystal', ['jumpnetwork', 'jumpnetwork2lattice', 'sitelist'])],
+    'C23': [('crystal', 'Crystal', ['pos2cart', 'unit2cart', 'cart2unit', 'cart2pos', 'g_direc', 'g_tensor', 'g_pos', 'g_vect', 'g_cart',
+                                    'g_direc_equivalent', 'Wyckoffpos']),
+            ('crystal', 'GroupOp'), ('crystalStars', 'PairState'), ('cluster', 'ClusterSite')],
+    'C24': [('crystalStars', 'StarSet')],
+    'C26': [('crystalStars', 'StarSet'), ('OnsagerCalc', 'VacancyMediated')],
+    'C28': [('supercell', 'Supercell')],
+    'C29': [('OnsagerCalc', 'VacancyMediated'), ('OnsagerCalc', 'Interstitial'), ('supercell', 'Supercell')],
+    'C31': [('cluster', 'Cluster'), ('cluster', 'ClusterSite')],
+    'C32': [('supercell', 'ClusterSupercell'), ('cluster', 'MonteCarloSampler')],
+    'C33': [('cluster', 'MonteCarloSampler'), ('supercell', 'ClusterSupercell')],
+    'C34': [('supercell', 'ClusterSupercell'), ('cluster', 'MonteCarloSampler')],
+    'C35': [('cluster', 'MonteCarloSampler'), ('cluster', 'MonteCarloSampler_jit')],
+}
+CACHE_EXEMPT = {('StarSet', 'generate', 'threshold'): 'only buckets states by |dx|^2; orbit membership is decided by exact PairState equality',
+                ('VectorStarSet', 'generate', 'threshold'): 'numerical tolerance; every caller in the package uses the default'}
+
+
+def caches_for(model, rep, prop):
+    return cache_discipline(model, rep, CACHE_SCOPE[prop], exempt=CACHE_EXEMPT)
